@@ -11,6 +11,11 @@ C08Cases ==
   \cup {[type |-> "load", top |-> top, inner |-> inner] :
            top \in {q \in SeqsUpTo({"res", "E", "W", "ok", "cmt"}, 2) : Count(q, {"res"}) <= 1},
            inner \in SeqsUpTo(InnerTok, K2)}
+            (* long lists of errors (a load that went wrong from the first line on): nine, thirteen, forty - all errors, and *)
+            (* warnings with the only error at the very end                                                                *)
+            \cup {[type |-> t, top |-> [k \in 1..n |-> "E"], inner |-> <<"ok">>] : t \in {"empty", "data", "bare"}, n \in {9, 13, 40}}
+            \cup {[type |-> t, top |-> [k \in 1..n |-> IF k = n THEN "E" ELSE "W"], inner |-> <<"ok">>] : t \in {"empty", "data", "bare"}, n \in {9, 13, 40}}
+            \cup {[type |-> "load", top |-> <<"res">>, inner |-> [k \in 1..n |-> IF k = n THEN "E" ELSE w]] : n \in {9, 13, 40}, w \in {"E", "W"}}
 
 C09Contents == ContentCases
 (* capability sets: all subsets of the given universe *)
@@ -44,6 +49,9 @@ SetSeq(S) == IF S = {} THEN <<>> ELSE LET x == CHOOSE y \in S : TRUE IN <<x>> \o
 (* its own and with one other rewrite, not in every composition (what it breaks is a recorded finding, and it     *)
 (* must not hide what the other compositions show)                                                               *)
 C13Cases == {SetSeq(s) : s \in SUBSET Rewrites} \cup {<<"cmtmid">>} \cup {<<"cmtmid", f>> : f \in {"pfx", "ws", "attr"}}
+            (* the layout's line ends written as CR LF or as bare CR; prefixes that only attributes use declared on the root *)
+            \cup UNION {{<<le>>, <<le, "ws">>, <<le, "pad">>, <<le, "ws", "pad">>, <<le, "ws", "pad", "cmt", "decl">>} : le \in {"crlf", "cr"}}
+            \cup {<<"nsup">>, <<"nsup", "pfx">>, <<"nsup", "attr">>}
 
 (* C10: every text-valued parameter x every string of up to K1 character classes *)
 Params == {"persist", "persist-id", "cancel-persist-id", "log", "log-after-failed-write", "instance", "xpath", "xpath-get", "url-edit", "url-delete", "url-host",
@@ -64,7 +72,7 @@ C14Cases ==
   {[tmpl |-> t, op |-> o, p |-> p, q |-> 0, seed |-> 0] : t \in Templates, o \in {"trunc", "flip20", "flip80", "flip01", "badutf8"}, p \in 0..8}
   \cup {[tmpl |-> t, op |-> "splice", p |-> p, q |-> q, seed |-> 0] : t \in Templates, p \in 0..7, q \in 1..8}
   \cup {[tmpl |-> t, op |-> o, p |-> 0, q |-> 0, seed |-> 0] : t \in Templates, o \in {"none", "dupelem", "hugeint", "wrongns", "deep", "big", "empty"}}
-  \cup {[tmpl |-> t, op |-> "leaftext", p |-> p, q |-> q, seed |-> 0] : t \in Templates, p \in 0..8, q \in 0..7}
+  \cup {[tmpl |-> t, op |-> "leaftext", p |-> p, q |-> q, seed |-> 0] : t \in Templates, p \in 0..8, q \in 0..18}
   (* well-formed replies that name a request nobody made *)
   \cup {[tmpl |-> t, op |-> o, p |-> 0, q |-> 0, seed |-> 0] : t \in Templates \ {"hello"}, o \in {"strayid-far", "strayid-next", "strayid-zero", "strayid-max"}}
   \cup {[tmpl |-> "hello", op |-> "query", p |-> 0, q |-> q, seed |-> 0] : q \in 0..10}
